@@ -16,8 +16,12 @@ import (
 
 func c14Opts(r *mon.RNG, i int) *gram.GenOpts {
 	prof := []int{gram.ProfStateful, gram.ProfDefault, gram.ProfLower}[i%3]
-	return &gram.GenOpts{Profile: prof, MaxProds: 5, Budget: 12 + r.Intn(16), Depth: 2 + r.Intn(4), TokKinds: i%3 == 0, Unions: true,
+	o := &gram.GenOpts{Profile: prof, MaxProds: 5, Budget: 12 + r.Intn(16), Depth: 2 + r.Intn(4), TokKinds: i%3 == 0, Unions: true,
 		SharePrefix: 3, CaptureBias: 4, SubBias: 3, AllowBang: true, NamesElided: i%6 == 5, OddLits: true}
+	if o.NamesElided {
+		o.Profile = gram.ProfStateful // only this profile has elided token types a grammar can name
+	}
+	return o
 }
 
 // irCounts is the multiset of literals, token references, production
